@@ -12,13 +12,13 @@ pub static DEF: CheckDef = CheckDef {
     id: "C04",
     run,
     replay,
-    rule: "proptest-generated structured programs (DESIGN.md appendix A: init code, a main loop of 1-40 fragments - ALU chains, memory read/write through HL/BC/DE/LDH/(nn)/(C) incl. reads of DIV/TIMA/IF/STAT/LY, counted JR/JP loops, CALL/CALL cc/RET cc/RST, balanced PUSH/POP, JP HL, far calls through bank-0 trampolines into banks whose code differs at the same address, routines copied to work/high RAM, OAM DMA with an HRAM wait loop, timer/STAT/IE programming, EI;HALT and STOP with a timer wake-up, DI sections, serial writes - plus five generated interrupt handlers) are assembled into an MBC1 ROM and run on two machines, one built with the jit feature and one without, both advanced block by block (Core::run_code_block while running, Core::update while halted/stopped) for a fixed number of steps. After every step all CPU/device scalars (registers, IME, run state, IF/IE, bank registers, timer incl. divider phase, LCD position, STAT, DMA progress, serial registers) and the ordered bus writes of that step are compared; the complete memory incl. both frame buffers and the serial log every 64 steps and at the end. Non-trivial = run in which at least one interrupt was dispatched and at least one translated block executed twice (measured); distinct by hash of the program.",
+    rule: "proptest-generated structured programs (DESIGN.md appendix A: init code, a main loop of 1-40 fragments - ALU chains, memory read/write through HL/BC/DE/LDH/(nn)/(C) incl. reads of DIV/TIMA/IF/STAT/LY, counted JR/JP loops, CALL/CALL cc/RET cc/RST, balanced PUSH/POP, JP HL, far calls through bank-0 trampolines into banks whose code differs at the same address, routines copied to work/high RAM, OAM DMA with an HRAM wait loop, timer/STAT/IE programming, EI;HALT and STOP with a timer wake-up, DI sections, serial writes, fall-through into the switchable bank - plus five generated interrupt handlers) are assembled into an MBC1 ROM and run on two machines, one built with the jit feature and one without, both advanced block by block (Core::run_code_block while running, Core::update while halted/stopped) for a fixed number of steps. After every step all CPU/device scalars (registers, IME, run state, IF/IE, bank registers, timer incl. divider phase, LCD position, STAT, DMA progress, serial registers) and the ordered bus writes of that step are compared; the complete memory incl. both frame buffers and the serial log every 64 steps and at the end. A cache-pressure family (a run of one-byte instructions entered one byte later on every iteration, so that every entry is a new block of up to 16 K instructions and the 8 MiB translation area fills up and is recycled several times) is run the same way. Non-trivial = run in which at least one interrupt was dispatched and at least one translated block executed twice (measured); distinct by hash of the program.",
     assumptions: &[
         "the interpreter build is the reference (its semantics are pinned by C05-C08)",
         "a run ends (counted as left-domain) when the interpreter refuses an instruction (runaway stack executing data) and is excluded (counted) when a block fetched from 0x4000-0x7FFF writes below 0x8000 (known finding C01 jit-self-bank-switch)",
         "programs are generated so that stores below 0x8000 only come from bank-0 trampolines",
     ],
-    required_classes: &["irq-dispatched", "block-reused", "uses-halt", "uses-dma", "ram-code", "bank-switch", "timer-irq", "lcd-irq", "serial", "far-code-under-two-banks"],
+    required_classes: &["cache-pressure", "irq-dispatched", "block-reused", "uses-halt", "uses-dma", "ram-code", "bank-switch", "timer-irq", "lcd-irq", "serial", "far-code-under-two-banks"],
     exhaustive: false,
 };
 
@@ -59,8 +59,30 @@ fn first_scalar_diff(a: &dyn Emu, b: &dyn Emu) -> Option<String> {
 /// run one program on both builds; Err = divergence
 pub fn run_pair(spec: &ProgSpec, steps: u32, st: &mut RunStats) -> CaseResult {
     let (rom, _info) = assemble(spec);
-    let mut mj = j::M::new(&rom);
-    let mut mi = i::M::new(&rom);
+    run_pair_rom(&rom, steps, st)
+}
+
+/// A program that enters a long run of one-byte instructions in bank 1 one byte
+/// later on every iteration: every entry is a new block of up to 16 K
+/// instructions, so the translation area (8 MiB) fills up within a few dozen
+/// iterations. It also transmits a byte per iteration.
+pub fn pressure_rom(op: u8) -> crate::rom::RomImage {
+    let mut rom = crate::rom::RomImage::new(0x03, 0x02, 0x03, 0x00);
+    for a in 0x4000..0x7fff {
+        rom.bytes[0x4000 + (a - 0x4000)] = op;
+    }
+    rom.bytes[0x7fff] = 0xc9;
+    let main: [u8; 21] = [0x31, 0xf0, 0xdf, 0x21, 0x00, 0x40, 0xcd, 0x00, 0x02, 0x23, 0x3e, 0x41, 0xe0, 0x01, 0x3e, 0x81, 0xe0, 0x02, 0x18, 0xf2, 0x00];
+    rom.bytes[0x150..0x150 + main.len()].copy_from_slice(&main);
+    rom.bytes[0x200] = 0xe9;
+    rom.bytes[0x100..0x104].copy_from_slice(&[0x00, 0xc3, 0x50, 0x01]);
+    rom.fix_checksum();
+    rom
+}
+
+pub fn run_pair_rom(rom: &crate::rom::RomImage, steps: u32, st: &mut RunStats) -> CaseResult {
+    let mut mj = j::M::new(rom);
+    let mut mi = i::M::new(rom);
     mj.fill_ram(0xc04);
     mi.fill_ram(0xc04);
     let _ = mj.serial_take();
@@ -69,6 +91,11 @@ pub fn run_pair(spec: &ProgSpec, steps: u32, st: &mut RunStats) -> CaseResult {
     for step in 0..steps {
         let pc0 = mi.regs().pc as u16;
         let running = mi.run_state() == RUN;
+        if running && !crate::refmach::executable(pc0) {
+            // runaway: executing from echo RAM, I/O ... is outside the domain
+            st.left_domain = true;
+            break;
+        }
         if running && pc0 < 0x8000 {
             let key = (if pc0 < 0x4000 { 0 } else { mi.rom_bank() }, pc0);
             let c = visits.entry(key).or_insert(0);
@@ -204,6 +231,15 @@ fn run(rec: &mut Rec) {
     if rec.ctx.nshards >= 4 && rec.ctx.shard % 2 == 1 {
         return;
     }
+    // cache-pressure family: the translation area fills up and is recycled
+    let ops: &[u8] = if rec.ctx.tier == Tier::Thorough { &[0x3c, 0x27, 0x00, 0x87, 0x07, 0x04] } else { &[0x3c, 0x27] };
+    for (k, op) in ops.iter().enumerate() {
+        let workers = if rec.ctx.nshards >= 4 { rec.ctx.nshards / 2 } else { rec.ctx.nshards };
+        let my = if rec.ctx.nshards >= 4 { rec.ctx.shard / 2 } else { rec.ctx.shard };
+        if k % workers == my {
+            run_pressure(rec, *op, rec.ctx.tier.pick(1200, 12_000));
+        }
+    }
     let steps = rec.ctx.tier.pick(3000u32, 30_000);
     let cases = rec.ctx.tier.pick(160u32, 4000);
     let strat = prog_strategy(40);
@@ -223,7 +259,52 @@ fn run(rec: &mut Rec) {
     }
 }
 
+fn run_pressure(rec: &mut Rec, op: u8, steps: u32) {
+    let case = json!({"kind": "cache-pressure", "op": op, "steps": steps});
+    rec.current(&case.to_string());
+    rec.eval(1);
+    rec.class("cache-pressure", 1);
+    let mut st = new_stats();
+    if let Err(f) = run_pair_rom(&pressure_rom(op), steps, &mut st) {
+        rec.violation(&format!("pressure-{}", f.sig), case, f.detail);
+    }
+}
+
 fn replay(case: &Value, rec: &mut Rec) {
+    if case.get("kind").and_then(|k| k.as_str()) == Some("measure-emit") {
+        // diagnostic: bytes of host code per guest instruction
+        let mut worst = (0usize, 0u8, 0u8);
+        for op in 0..=255u8 {
+            if models::sm83::is_undefined(op) {
+                continue;
+            }
+            for cb in 0..(if op == 0xcb { 256 } else { 1 }) {
+                let mut rom = crate::rom::RomImage::new(0x03, 0x02, 0x03, 0x76);
+                rom.bytes[0x200] = op;
+                rom.bytes[0x201] = if op == 0xcb { cb as u8 } else { 0x10 };
+                rom.bytes[0x202] = 0x20;
+                let mut m = j::M::new(&rom);
+                let before = m.cache_used();
+                m.translate(0x200);
+                let one = m.cache_used() - before;
+                let before = m.cache_used();
+                m.translate(0x203);
+                let base = m.cache_used() - before;
+                let n = one.saturating_sub(if models::sm83::is_terminator(op) { 0 } else { base });
+                if n > worst.0 {
+                    worst = (n, op, cb as u8);
+                }
+            }
+        }
+        eprintln!("worst emitted size: {} bytes for opcode {:#04x} {:#04x}", worst.0, worst.1, worst.2);
+        return;
+    }
+    if case.get("kind").and_then(|k| k.as_str()) == Some("cache-pressure") {
+        let op = case.get("op").and_then(|v| v.as_u64()).unwrap_or(0x3c) as u8;
+        let steps = case.get("steps").and_then(|v| v.as_u64()).unwrap_or(1200) as u32;
+        run_pressure(rec, op, steps);
+        return;
+    }
     let spec: ProgSpec = match case.get("spec").cloned().and_then(|v| serde_json::from_value(v).ok()) {
         Some(s) => s,
         None => {
